@@ -99,6 +99,13 @@ def insertInt (x : Int) : List Int → List Int
   | y :: ys => if x ≤ y then x :: y :: ys else y :: insertInt x ys
 def sortedInt (xs : List Int) : List Int := xs.foldr insertInt []
 
+/-- `sorted(xs)` for `Tuple[int, int]` elements: tuples compare lexicographically (first components, then second ones);
+    stable insertion sort (elements that compare equal are identical pairs, so stability is unobservable) -/
+def insertIntPair (x : Int × Int) : List (Int × Int) → List (Int × Int)
+  | [] => [x]
+  | y :: ys => if x.1 < y.1 ∨ (x.1 = y.1 ∧ x.2 ≤ y.2) then x :: y :: ys else y :: insertIntPair x ys
+def sortedIntPair (xs : List (Int × Int)) : List (Int × Int) := xs.foldr insertIntPair []
+
 /-- divisor of `//` and `%`: zero raises `ZeroDivisionError` -/
 def nonZero (n : Nat) : M Nat := if n = 0 then throw .zeroDivisionError else pure n
 def nonZeroZ (n : Int) : M Int := if n = 0 then throw .zeroDivisionError else pure n
